@@ -470,3 +470,49 @@ class ExclFamily(Family):
 
 FAMILIES["excl"] = ExclFamily
 NOT_YET = {}
+
+
+class MergerFamily(Family):
+    name = "merger"
+    def cases(self, pid, seed, tier, mult, stats):
+        for c in self.corpus(pid):
+            yield c
+        for i in range(budget(tier, 300, 5000, mult)):
+            rng = Rng(seed * 2000003 + i * 13 + (1 if pid == "C05" else 0))
+            yield ("merger:%d:%d" % (seed, i), F.gen_merger_case(rng, stats, focus=pid))
+    def oracle(self, res):
+        return F.oracle_merger(res)
+    def run(self, exe, lines):
+        res = vlib.run_script(exe, lines)
+        # after a reported merge-callback failure the iterator state is unspecified: stop comparing that iterator
+        failmode = any(r["req"].startswith("m.new") and "merge=fail:" in r["req"] for r in res)
+        if failmode:
+            dead = set()
+            for r in res:
+                t = r["req"].split(" ")
+                if t[0] in ("m.next", "m.seek") :
+                    if t[1] in dead:
+                        r["model"] = r["real"]
+                    elif t[0] == "m.next" and r["real"] == "fail":
+                        dead.add(t[1])
+        return res
+    def keep_prefix(self, lines):
+        return 2
+    def tie_props(self, res, idx):
+        t = res[idx]["req"].split(" ")
+        if t[0] in ("m.next", "m.seek", "m.it"):
+            iid = t[2] if t[0] == "m.it" else t[1]
+            kind, seeked = None, False
+            for r in res[:idx + 1]:
+                tt = r["req"].split(" ")
+                if tt[0] == "m.it" and tt[2] == iid:
+                    kind = tt[3]; seeked = False
+                if tt[0] == "m.seek" and tt[1] == iid:
+                    seeked = True
+            return {"C05"} if (seeked or kind != "iter") else {"C04"}
+        return {"C04", "C05"}
+    def nontrivial(self, pid, lines, res):
+        n = sum(1 for l in lines if l.startswith("m.src") and len(l.split(" ")) > 6)
+        return n >= 2
+
+FAMILIES["merger"] = MergerFamily
